@@ -7,7 +7,7 @@
 use std::io::{self, BufRead, Write};
 use std::panic;
 
-fn run_comp(name: &str) {
+fn run_comp(name: &str, udp: bool) {
     let stdin = io::stdin();
     let stdout = io::stdout();
     let mut out = io::BufWriter::new(stdout.lock());
@@ -19,7 +19,13 @@ fn run_comp(name: &str) {
         if t == "#" {
             let name2 = name.to_string();
             let ops2 = std::mem::take(&mut ops);
-            let res = panic::catch_unwind(move || quinn_proto::verif_hooks::run(&name2, &ops2));
+            let res = panic::catch_unwind(move || {
+                if udp {
+                    quinn_udp::verif_hooks::run(&name2, &ops2)
+                } else {
+                    quinn_proto::verif_hooks::run(&name2, &ops2)
+                }
+            });
             match res {
                 Ok(Some(outs)) => {
                     for o in outs {
@@ -52,9 +58,13 @@ fn run_comp(name: &str) {
 fn main() {
     let args: Vec<String> = std::env::args().collect();
     match args.get(1).map(|s| s.as_str()) {
-        Some("comp") => run_comp(&args[2]),
+        Some("comp") => run_comp(&args[2], false),
+        Some("udp") => run_comp(&args[2], true),
         Some("constants") => {
             for (k, v) in quinn_proto::verif_hooks::constants::constants() {
+                println!("{} {}", k, v);
+            }
+            for (k, v) in quinn_udp::verif_hooks::constants() {
                 println!("{} {}", k, v);
             }
         }
